@@ -6,5 +6,7 @@ package jsonpb
 // Safety only: the two JSON tree rewriters must not panic on any tree.
 
 //@ func jsonpb.convertHex
+//@   skip rec.dec
 
 //@ func jsonpb.convertBase64
+//@   skip rec.dec
